@@ -23,18 +23,20 @@ func c03Prior(prior int, algName string) *psatoken.Evidence {
 	if algName == "EdDSA" {
 		other = "ES256"
 	}
+	// if the prior use itself fails (that is some other scenario's finding) a fresh Evidence is used
 	switch prior {
 	case 1:
-		if err := ev.UnmarshalCOSE(append([]byte{}, c03PriorToken(other)...)); err != nil {
-			panic(choice.HarnessError{Msg: "c03 prior decode: " + err.Error()})
+		t := c03PriorToken(other)
+		if t == nil || ev.UnmarshalCOSE(append([]byte{}, t...)) != nil {
+			return &psatoken.Evidence{}
 		}
 	case 2:
 		x, _ := realise(c02Claims()[3])
 		if err := ev.SetClaims(x); err != nil {
-			panic(choice.HarnessError{Msg: err.Error()})
+			return &psatoken.Evidence{}
 		}
 		if _, err := ev.Sign(fixtures.Get(other, 2).Signer()); err != nil {
-			panic(choice.HarnessError{Msg: "c03 prior sign: " + err.Error()})
+			return &psatoken.Evidence{}
 		}
 	}
 	return ev
@@ -50,7 +52,11 @@ func c03PriorToken(alg string) []byte {
 	if t, ok := c03PriorTokens[alg]; ok {
 		return t
 	}
-	t := c02MakeSeed(alg, 2, 3).tok
+	var t []byte
+	func() {
+		defer func() { recover() }() // seed creation fails if the library cannot sign with this algorithm
+		t = c02MakeSeed(alg, 2, 3).tok
+	}()
 	c03PriorTokens[alg] = t
 	return t
 }
@@ -145,7 +151,8 @@ func c03Eval(c *choice.Ctx, st *Stats, a *refmodel.Claims, x psatoken.IClaims, k
 	}
 	// decoding the token into an Evidence that decoded a fuller token before exposes exactly the token's claims
 	used := &psatoken.Evidence{}
-	if err := used.UnmarshalCOSE(append([]byte{}, c03PriorToken("ES256")...)); err == nil {
+	if pt := c03PriorToken("ES256"); pt == nil {
+	} else if err := used.UnmarshalCOSE(append([]byte{}, pt...)); err == nil {
 		if err := used.UnmarshalCOSE(append([]byte{}, tok...)); err != nil {
 			c.Failf("C03:reused-evidence-decode-error:"+tag, "%v", err)
 		} else if g3 := getterVector(used.Claims); g3 != gx {
